@@ -25,6 +25,11 @@ THEOREMS = [
     "VK.C16_spatial_sorted",
     "VK.C16_pl_restriction",
     "VK.C16_PLRestrictionConsistent",
+    "VK.kernel_slate_accept_down",
+    "VK.kernel_slate_accept_up",
+    "VK.kernel_slate_accept_used",
+    "VK.kernel_bt_accept",
+    "VK.kernel_bt_accept_used",
     "VK.C16_alternate_structure",
     "VK.C16_filter_order",
 ]
